@@ -70,7 +70,7 @@ pub fn judge_panel(w: &World, cfg: &Config) -> Result<(), String> {
     if p.inverted != cfg.invert {
         return Err(format!("colour inversion is {} after init, chosen {}", p.inverted, cfg.invert));
     }
-    if p.ramwr_count != 0 || p.pixels_total != 0 {
+    if p.pixels_total != 0 {
         return Err(format!("init wrote pixel memory ({} memory-write commands, {} pixels)", p.ramwr_count, p.pixels_total));
     }
     let Some((_, t)) = p.sleep_log.iter().rev().find(|(op, _)| *op == 0x11) else {
@@ -90,21 +90,22 @@ pub fn judge_reset(w: &World, cfg: &Config, init_trace: &[Tr]) -> Result<(), Str
         if log.is_empty() {
             return Err("reset pin configured but never driven".into());
         }
-        if log[0].0 {
-            return Err("reset pin is driven high first (no low pulse start)".into());
+        // The pulse that counts is the last one: the pin may be parked high first (a driver that
+        // establishes the idle level before pulsing still "drives it low, waits, drives it high").
+        if log.last().map(|e| e.0) != Some(true) || w.rst != Some(true) {
+            return Err(if log.iter().any(|e| e.0) { "reset pin is not left high".into() } else { "reset pin is driven low and never released".to_string() });
         }
-        let Some(hi) = log.iter().position(|e| e.0) else {
-            return Err("reset pin is driven low and never released".into());
+        let Some(last_lo) = log.iter().rposition(|e| !e.0) else {
+            return Err("reset pin is never driven low (no reset pulse)".into());
         };
-        let (t_lo, t_hi) = (log[0].1, log[hi].1);
+        let mut start = last_lo;
+        while start > 0 && !log[start - 1].0 {
+            start -= 1;
+        }
+        let hi = last_lo + 1;
+        let (t_lo, t_hi) = (log[start].1, log[hi].1);
         if t_hi - t_lo < 10_000 {
             return Err(format!("reset pulse lasts {} ns, at least 10000 ns required", t_hi - t_lo));
-        }
-        if log[hi..].iter().any(|e| !e.0) {
-            return Err("reset pin is driven low again after the pulse".into());
-        }
-        if w.rst != Some(true) {
-            return Err("reset pin is not left high".into());
         }
         if w.bus_while_reset != 0 {
             return Err(format!("{} words were put on the bus while the reset pin was low", w.bus_while_reset));
@@ -112,9 +113,6 @@ pub fn judge_reset(w: &World, cfg: &Config, init_trace: &[Tr]) -> Result<(), Str
         if let Some((ops, _)) = w.first_bus {
             if ops < log[hi].2 {
                 return Err("bus traffic before the reset pin was high again".into());
-            }
-            if ops < log[0].2 {
-                return Err("bus traffic before the reset pulse".into());
             }
         }
         if n01 != 0 || w.panel.swreset_count != 0 {
@@ -239,13 +237,16 @@ pub fn check(c: &InitCase, info: &mut CaseInfo) -> Result<(), String> {
                     let before = w.borrow().panel.madctl;
                     d.set_orientation(cfg.orient).map_err(|e| format!("set_orientation failed: {:?}", e))?;
                     let tr = w.borrow_mut().panel.take_trace();
-                    match &tr[..] {
-                        [Tr::Cmd { op: 0x36, args, .. }] if args[..] == [before] => Ok(()),
-                        other => Err(format!(
-                            "set_orientation(same orientation) after init sent {:?}; the address mode programmed by init was {:#010b} (cached value differs)",
-                            other, before
-                        )),
+                    // whether or not the driver resends an unchanged value, the controller must still
+                    // hold the byte init programmed, and nothing but address-mode commands may be sent
+                    let after = w.borrow().panel.madctl;
+                    if after != before || tr.iter().any(|t| !matches!(t, Tr::Cmd { op: 0x36, .. })) {
+                        return Err(format!(
+                            "set_orientation(same orientation) after init sent {:?} and left address mode {:#010b}; the address mode programmed by init was {:#010b} (cached value differs)",
+                            tr, after, before
+                        ));
                     }
+                    Ok(())
                 }
                 Err(DutErr::UnsupportedInterface) => {
                     if sup {
